@@ -33,6 +33,12 @@ LEVEL_TEXT = (
     "(generated table vs hand-written documented table by decide), a valid document with documented values is accepted (partial: bookkeeping "
     "conditions evaluated in the model's context), a malformed number is refused with the index of its element; correspondence: the driver "
     "gets the real attribute strings of every event and must predict state/error/line itself (only the Cholesky verdict is an input bit).  "
+    "DataParser::pure_data (the test behind every numeric element of the gama-g3 / adjustment input): the order of its early returns and "
+    "its 31 call sites are regenerated, the model (libstdc++ `>> double` / `>> string` + pure_data) is proved to accept exactly 'no extraction "
+    "failed and only white space follows' for every chain of extractions and is compared with the real iostream/pure_data on all strings up to "
+    "length 4/5; oracle on gama-g3 inputs: a numeric leaf holding a non-number (incl. a number cut off at the end of the text) is refused with a "
+    "located error; the diagnostic of every refused document must name the line of the event during which error() was first recorded "
+    "(harness: whole chunk; gama-local: start tags spanning several lines).  "
     "Memory safety, termination and the located diagnostic of the real process are NOT "
     "proved: they are explored by running gama-local built with ASan+UBSan on grammar-derived, mutated and truncated inputs.")
 LEVEL_NOTE = (
